@@ -5,7 +5,7 @@ import os
 
 import numpy as np
 
-from ..common import quiet, VERIF
+from ..common import quiet, VERIF, InfraError as common_infra
 from . import c08 as _c08
 
 PID = "C28"
@@ -278,9 +278,21 @@ def kp_folding(ctx, rs):
        k-vector into the box [-1/2, 1/2): value(k + G) = value(k) for integer G, and the analytic ones must equal the
        user function at the folded point - for every subset of supplied derivatives and both k conventions"""
     tol_depth = [1e-9, 1e-6, 1e-4, 2e-2]        # relative; depth = number of nested finite-difference levels
-    for subset in KP_SUBSETS:
-        for cart in (True, False):
-            s, par, fun = kp_model(rs, nband=int(rs.choice([1, 2])), subset=subset, cartesian=cart)
+    cells = list(KP_CELLS)
+    for isub, subset in enumerate(KP_SUBSETS):
+        for icart, cart in enumerate((True, False)):
+            # every (subset, convention) on a non-cubic cell; the kmax box additionally once per subset
+            todo = [cells[1 + (2 * isub + icart) % 3]] + (["box"] if icart == 0 else [])
+            if ctx.tier == "thorough":
+                todo = cells
+            for cell in todo:
+                kp_folding_one(ctx, rs, subset, cart, cell, tol_depth)
+
+
+def kp_folding_one(ctx, rs, subset, cart, cell, tol_depth):
+    if True:
+        if True:
+            s, par, fun = kp_model(rs, nband=int(rs.choice([1, 2])), subset=subset, cartesian=cart, cell=cell)
             n_analytic = dict(none=0, d1=1, d1d2=2, d1d2d3=3)[subset]
             recip = s.recip_lattice
             for it in range(ctx.n(2, 6)):
@@ -301,11 +313,12 @@ def kp_folding(ctx, rs):
                     scale = max(np.abs(ref).max(), 1e-12)
                     ctx.case(signature=("fold", name, subset, cart, tuple(k), tuple(G)), nontrivial=True)
                     ctx.count(f"corr.kp_fold.{name}.{'analytic' if depth == 0 else 'fd%d' % depth}")
+                    ctx.count(f"corr.kp_fold.cell={cell}")
                     d_fold = np.abs(v1 - v0).max() / scale
                     d_ref = np.abs(v0 - ref).max() / scale
                     d_ref1 = np.abs(v1 - ref).max() / scale
                     if d_fold > tol_depth[depth] or d_ref > tol_depth[depth] or d_ref1 > tol_depth[depth]:
-                        ctx.mismatch(f"SystemKP.{name} (subset '{subset}', {'cartesian' if cart else 'reduced'} k): value at k+G "
+                        ctx.mismatch(f"SystemKP.{name} (subset '{subset}', {'cartesian' if cart else 'reduced'} k, cell '{cell}'): value at k+G "
                                      f"differs from the value at k by {d_fold:.2e}; vs the exact derivative at the folded k: "
                                      f"{d_ref:.2e} (k), {d_ref1:.2e} (k+G); tolerance {tol_depth[depth]:.0e}", case)
 
@@ -420,32 +433,69 @@ def poly_derivative(terms, order):
     return f
 
 
-def kp_model(rs, nband=2, subset="d1d2d3", cartesian=True, kmax=1.0):
-    """k.p system with a closed Fermi surface well inside the box; `subset` selects which analytic derivatives are
+KP_CELLS = ("box", "hex", "mono", "tri")
+KP_REJECTED = [0]       # cells rejected by SystemKP / find_shells (registered C31 finding), counted
+
+
+def draw_cell(rs, cell):
+    """(constructor keyword, matrix, reciprocal lattice) of a k.p cell whose inscribed sphere has radius about 1"""
+    from wannierberri.utility import real_recip_lattice
+    if cell == "box":
+        return "kmax", 1.0, np.eye(3) * 2.0
+    if cell == "hex":            # given through real_lattice; reciprocal matrix not symmetric
+        a, c = float(rs.uniform(2.9, 3.3)), float(rs.uniform(2.6, 3.0))
+        real = np.array([[a, 0, 0], [-a / 2, a * np.sqrt(3) / 2, 0], [0, 0, c]])
+        return "real_lattice", real, real_recip_lattice(real_lattice=real)[1]
+    if cell == "mono":           # oblique in the xy plane
+        rec = np.array([[rs.uniform(2.0, 2.3), 0, 0], [rs.uniform(0.4, 0.8) * rs.choice([-1, 1]), rs.uniform(2.0, 2.3), 0],
+                        [0, 0, rs.uniform(2.0, 2.3)]])
+        return "recip_lattice", rec, rec
+    while True:                  # triclinic, generic non-symmetric matrix
+        rec = np.diag(rs.uniform(2.1, 2.4, 3)) + rs.uniform(-0.4, 0.4, (3, 3)) * (1 - np.eye(3))
+        if np.linalg.det(rec) > 6 and np.abs(rec - rec.T).max() > 0.1:
+            return "recip_lattice", rec, rec
+
+
+def kp_model(rs, nband=2, subset="d1d2d3", cartesian=True, cell="box"):
+    """k.p system with a closed Fermi surface well inside the cell; `subset` selects which analytic derivatives are
        supplied (the others are computed by SystemKP with finite differences), `cartesian` the k convention of the
-       user functions"""
+       user functions, `cell` how the reciprocal cell is given (kmax box / hexagonal real_lattice / monoclinic or
+       triclinic recip_lattice).  Cells that SystemKP (find_shells) rejects are re-drawn and counted."""
     wb = _c08._wb()
     terms, par = kp_poly(rs, nband)
     fun = [poly_derivative(terms, o) for o in range(4)]
-    recip = np.eye(3) * 2 * kmax
-    user = fun if cartesian else [(lambda k, f=f: f(np.asarray(k, dtype=float) @ recip)) for f in fun]
-    kw = dict(Ham=user[0], kmax=kmax, k_vector_cartesian=cartesian)
-    if subset in ("d1", "d1d2", "d1d2d3"):
-        kw["derHam"] = user[1]
-    if subset in ("d1d2", "d1d2d3"):
-        kw["der2Ham"] = user[2]
-    if subset == "d1d2d3":
-        kw["der3Ham"] = user[3]
-    with quiet():
-        s = wb.system.SystemKP(**kw)
-    # lowest band energy on the faces of the box: Fermi levels must stay well below it (no occupied state may touch
-    # the boundary of the box, otherwise the integration by parts has boundary terms)
-    g = np.linspace(-kmax, kmax, 9)
-    eb = min(np.linalg.eigvalsh(fun[0](np.roll(np.array([sg * kmax, x, y]), ax)))[0]
-             for ax in range(3) for sg in (-1.0, 1.0) for x in g for y in g)
-    gi = np.linspace(-kmax, kmax, 13)
-    emin = min(np.linalg.eigvalsh(fun[0](np.array([x, y, z])))[0] for x in gi for y in gi for z in gi)
-    par.update(E_boundary_min=float(eb), E_min=float(emin), kind="kp", subset=subset, cartesian=bool(cartesian), kmax=kmax)
+    for attempt in range(240):
+        # after 200 rejected draws of this kind of cell fall back to the monoclinic one
+        key, mat, recip = draw_cell(rs, cell if attempt < 200 else "mono")
+        user = fun if cartesian else [(lambda k, f=f, recip=recip: f(np.asarray(k, dtype=float) @ recip)) for f in fun]
+        kw = dict(Ham=user[0], k_vector_cartesian=cartesian)
+        kw[key] = mat
+        if key != "kmax":
+            kw["kmax"] = None
+        if subset in ("d1", "d1d2", "d1d2d3"):
+            kw["derHam"] = user[1]
+        if subset in ("d1d2", "d1d2d3"):
+            kw["der2Ham"] = user[2]
+        if subset == "d1d2d3":
+            kw["der3Ham"] = user[3]
+        try:
+            with quiet():
+                s = wb.system.SystemKP(**kw)
+            break
+        except (RuntimeError, TypeError, ValueError, np.linalg.LinAlgError):   # find_shells gives up on this cell (C31 finding)
+            KP_REJECTED[0] += 1
+    else:
+        raise common_infra("no acceptable k.p cell in 240 draws")
+    recip = np.array(s.recip_lattice)
+    # lowest band energy on the faces of the cell: Fermi levels must stay well below it (no occupied state may touch
+    # the boundary of the cell, otherwise the integration by parts has boundary terms)
+    g = np.linspace(-0.5, 0.5, 9)
+    eb = min(np.linalg.eigvalsh(fun[0](np.roll(np.array([sg, x, y]), ax) @ recip))[0]
+             for ax in range(3) for sg in (-0.5, 0.5) for x in g for y in g)
+    gi = np.linspace(-0.5, 0.5, 13)
+    emin = min(np.linalg.eigvalsh(fun[0](np.array([x, y, z]) @ recip))[0] for x in gi for y in gi for z in gi)
+    par.update(E_boundary_min=float(eb), E_min=float(emin), kind="kp", subset=subset, cartesian=bool(cartesian), cell=cell,
+               recip_lattice=recip.tolist())
     return s, par, fun
 
 
@@ -590,13 +640,19 @@ def oracle(ctx, scale):
     #  dE_k <~ 0.7 kT, i.e. > 40^3 points for a box-confined k.p band, and is compared on the tight-binding models only)
     kp_pairs = [p for p in pairs if not p[0].startswith(("GME_spin", "Hall_classic"))]
     kp_rank2 = [p for p in kp_pairs if "NLDrude" not in p[0]]
+    # cells: kmax box and cells given through real_lattice= / recip_lattice= with a NON-symmetric reciprocal matrix
+    # (hexagonal, monoclinic, triclinic); with partially analytic derivatives the finite-difference stencil of SystemKP
+    # enters the sea forms only, so a wrong stencil shows up as a sea/surface disagreement
     if thorough:
-        kp_plan = [(2, sub, cart, 12, kp_rank2) for sub in KP_SUBSETS for cart in (True, False)]
-        kp_plan += [(2, "d1d2d3", bool(rs.randint(2)), 20, kp_pairs), (1, "d1d2", bool(rs.randint(2)), 20, kp_pairs)]
+        kp_plan = [(2, sub, cart, 12, kp_rank2, KP_CELLS[(2 * i + j + int(rs.randint(4))) % 4])
+                   for i, sub in enumerate(KP_SUBSETS) for j, cart in enumerate((True, False))]
+        kp_plan += [(2, "d1", bool(rs.randint(2)), 12, kp_rank2, str(rs.choice(["hex", "mono", "tri"]))),
+                    (2, "d1d2d3", bool(rs.randint(2)), 20, kp_pairs, str(rs.choice(KP_CELLS))),
+                    (1, "d1d2", bool(rs.randint(2)), 20, kp_pairs, str(rs.choice(["hex", "mono", "tri"])))]
     else:
-        kp_plan = [(2, str(rs.choice(["d1d2", "d1d2d3"])), bool(rs.randint(2)), 12, kp_rank2)]
-    for nband, subset, cart, NK, plist in kp_plan:
-        s, par, _ = kp_model(rs, nband=nband, subset=subset, cartesian=cart)
+        kp_plan = [(2, str(rs.choice(["d1", "d1d2", "d1d2d3"])), bool(rs.randint(2)), 12, kp_rank2, str(rs.choice(KP_CELLS)))]
+    for nband, subset, cart, NK, plist, cell in kp_plan:
+        s, par, _ = kp_model(rs, nband=nband, subset=subset, cartesian=cart, cell=cell)
         kT = 0.6
         ef = np.arange(par["E_min"] - 6 * kT - 0.3, par["E_boundary_min"], 0.025)
         if nband == 1:      # no Berry curvature / orbital moment in a one-band model
@@ -605,6 +661,7 @@ def oracle(ctx, scale):
         check_model(ctx, s, par, plist, ef, kT, NK, lambda n: n,
                     lambda e, eb=par["E_boundary_min"], kT=kT: e < eb - 8 * kT, devs)
         ctx.count(f"oracle.kp.subset={subset}.{'cartesian' if cart else 'reduced'}.nband={nband}")
+        ctx.count(f"oracle.kp.cell={cell}")
     if devs:
         for lab, dd in (("rank-2 pairs", [d for d in devs if "NLDrude" not in d[0]]),
                         ("nonlinear Drude sea/surface", [d for d in devs if "NLDrude" in d[0] and "Fermider2" not in d[1]]),
@@ -613,7 +670,10 @@ def oracle(ctx, scale):
                 w = max(dd, key=lambda x: x[3])
                 ctx.note(f"largest first-pass discrepancy, {lab}: {w[3]:.4f} ({w[0]}, {w[4]}, {w[2]}^3); a sign error "
                          f"gives 2.0, an axis error O(1)")
-    ctx.sample(dict(pairs=pairs + extra, tb_plan=tb_plan, kp_plan=[p[:4] for p in kp_plan]))
+    ctx.sample(dict(pairs=pairs + extra, tb_plan=tb_plan, kp_plan=[p[:4] + p[5:] for p in kp_plan]))
+    if KP_REJECTED[0]:
+        ctx.note(f"{KP_REJECTED[0]} drawn k.p cells were rejected by SystemKP/find_shells and re-drawn (registered C31 finding)")
+        ctx.count("kp.cells_rejected_by_find_shells", KP_REJECTED[0])
     history_oracle(ctx, rs, table, thorough)
 
 
